@@ -44,6 +44,12 @@ func main() {
 		fmt.Printf("UNDECIDED property=%s rule=load reason=%v\n", *prop, err)
 		os.Exit(2)
 	}
+	if *dump == "anchors" {
+		for _, l := range rules.AnchorSelfCheck(p) {
+			fmt.Println(l)
+		}
+		return
+	}
 	if *dump != "" {
 		eng.Dump(p, *dump)
 		return
